@@ -27,11 +27,11 @@ PROFILE_SETS = [
 def scenarios(tier, seed):
     out = []
     if tier == "quick":
-        plan = [("SDR", 1, dict(cmd_buffer_depth=8)), ("SDR", 2, dict(cmd_buffer_depth=2, with_auto_precharge=False)),
+        plan = [("SDR", 1, dict(cmd_buffer_depth=8)), ("SDR", 2, dict(cmd_buffer_depth=1, with_auto_precharge=False)),
                 ("DDR", 2, dict(cmd_buffer_depth=4, cmd_buffer_buffered=True)), ("DDR2", 1, dict()),
                 ("DDR3", 2, dict(cmd_buffer_depth=8)), ("DDR3", 4, dict(cmd_buffer_depth=2)),
                 ("DDR3_half", 3, dict(cmd_buffer_depth=4, cmd_buffer_buffered=True, with_auto_precharge=False)),
-                ("DDR4", 5, dict(cmd_buffer_depth=4)), ("LPDDR", 0, dict(cmd_buffer_depth=2)), ("DDR3_200", 5, dict()),
+                ("DDR4", 5, dict(cmd_buffer_depth=4)), ("LPDDR", 0, dict(cmd_buffer_depth=2)), ("DDR3", 1, dict(cmd_buffer_depth=1)), ("DDR3_200", 5, dict()),
                 ("SDR", 6, dict()), ("DDR3", 6, dict(cmd_buffer_depth=4))]
         for i, (b, ps, ctrl) in enumerate(plan):
             geo = dict(ncols=2048, nrows=8192) if ps == 6 else {}        # alias probes also run on geometries beyond A10
@@ -40,8 +40,8 @@ def scenarios(tier, seed):
         i = 0
         for b in ["SDR", "SDR166", "DDR", "LPDDR", "DDR2", "DDR3", "DDR3_200", "DDR3_half", "DDR4"]:
             for ps in range(len(PROFILE_SETS)):
-                for depth, buffered, ap in [(8, False, True), (2, True, False), (4, False, False), (16, True, True)]:
-                    if (i + ps) % 2 == 0 or depth == 8:
+                for depth, buffered, ap in [(8, False, True), (2, True, False), (4, False, False), (16, True, True), (1, False, True)]:
+                    if (i + ps) % 2 == 0 or depth in (8, 1):
                         geo = dict(ncols=[2048, 4096][i % 2], nrows=8192) if ps == 6 else {}
                         out.append(scenario("%s-set%d-d%d%s%s" % (b, ps, depth, "b" if buffered else "", "ap" if ap else ""), b,
                                             PROFILE_SETS[ps], seed * 977 + i, tech=dict(tREFI=1300 + 17 * (i % 40)), **geo,
